@@ -212,6 +212,17 @@ class Gen:
         self.types.append(t)
         return t
 
+    LEAF_VALUES = {'date': ('2021-03-04', '2019-12-31'), 'time': ('10:20:30', '23:05:00'),
+                   'datetime': ('2021-03-04T10:20:30', '2019-12-31T23:05:00'), 'Decimal': ('1.25', '7.5')}
+    PATTERNS = {'date': '%d/%m/%Y', 'time': '%Hh%M', 'datetime': '%d/%m/%Y %H:%M'}
+
+    def leaf(self, base=None):
+        """a user subclass of date / time / datetime / Decimal"""
+        t = {'kind': 'leaf', 'id': self.new_id('L'), 'name': self.t('T'),
+             'base': base or self.r.choice(['date', 'date', 'time', 'datetime', 'Decimal'])}
+        self.types.append(t)
+        return t
+
     def simple_type(self):
         return self.r.choice(['int', 'str', 'float', 'bool', 'int', 'str'])
 
@@ -221,7 +232,15 @@ class Gen:
         if x < 0.40 or depth >= 2:
             return self.simple_type()
         if x < 0.62 and refs:
-            return ['ref', r.choice(refs)]
+            ref = r.choice(refs)
+            ts = [t for t in self.types if t['id'] == ref][0]
+            if ts['kind'] == 'leaf' and ts['base'] in self.PATTERNS and self.engine == 'v1' and r.random() < 0.6:
+                # patterned position; ONE pattern object per base type and model
+                pid = 'P_' + ts['base']
+                self.patterns[pid] = self.PATTERNS[ts['base']]
+                inner = ['ref', ref] if r.random() < 0.75 else ['list', ['ref', ref]]
+                return ['pat', inner, pid]
+            return ['ref', ref]
         if x < 0.74:
             return ['list', self.field_type(refs, depth + 1)]
         if x < 0.82:
@@ -297,15 +316,32 @@ class Gen:
     def model(self):
         r = self.r
         self.union_members = set()
+        self.patterns = {}
         refs = []
+        focus = getattr(self, 'focus', None)      # a focused model has two types of one kind, used apart
+        self.focus_pair = None
+        if focus == 'leaf':
+            a = self.leaf(r.choice(['date', 'date', 'time', 'datetime', 'Decimal']))
+            b = self.leaf(a['base'])
+        elif focus:
+            a, b = getattr(self, focus)(), getattr(self, focus)()
+        if focus:
+            self.focus_pair = (a['name'], b['name'])
+            self.focus_ids = [a['id'], b['id']]
+            refs += self.focus_ids
         for _ in range(r.choice([0, 1, 1, 2])):
             refs.append(self.enum()['id'])
-        if r.random() < 0.35:
+        for _ in range(r.choice([0, 0, 1, 1, 2])):      # two of a kind: same-name renamings across classes
             refs.append(self.namedtuple()['id'])
-        if r.random() < 0.3:
+        for _ in range(r.choice([0, 0, 1, 2])):
             refs.append(self.typeddict()['id'])
+        if r.random() < 0.45:
+            a = self.leaf()
+            refs.append(a['id'])
+            if r.random() < 0.7:                        # a second subclass of the same base
+                refs.append(self.leaf(a['base'])['id'])
         dcs = []
-        for _ in range(r.choice([0, 1, 2, 2, 3])):
+        for _ in range(r.choice([1, 2, 2]) if focus else r.choice([0, 1, 2, 2, 3])):
             d = self.dataclass(refs + dcs[-1:], [], allow_union=False)
             dcs.append(d['id'])
         root = self.dataclass(refs + dcs, dcs)
@@ -314,6 +350,29 @@ class Gen:
         for d in dcs:
             if '"%s"' % d not in used and r.random() < 0.7:
                 root['fields'].insert(0, {'name': self.t('f'), 'type': ['ref', d]})
+        # every enum / NamedTuple / TypedDict / leaf subclass is used somewhere, spread over the classes
+        # (so that equal names of two types meet in different classes and fields, not only in one)
+        all_dcs = [t for t in self.types if t['kind'] == 'dataclass']
+        used = json.dumps([t['fields'] for t in all_dcs])
+        fids = getattr(self, 'focus_ids', []) if focus else []
+        spread = list(all_dcs)
+        r.shuffle(spread)
+        both_patterned = r.random() < 0.6
+        for tid in refs:
+            forced = tid in fids
+            if not forced and ('"%s"' % tid in used or r.random() < 0.15):
+                continue
+            ts = self.tspec({'types': self.types}, tid)
+            ft = ['ref', tid]
+            if ts['kind'] == 'leaf' and ts['base'] in self.PATTERNS and self.engine == 'v1' and (
+                    both_patterned if forced else r.random() < 0.7):
+                pid = 'P_' + ts['base']
+                self.patterns[pid] = self.PATTERNS[ts['base']]
+                ft = ['pat', ft if r.random() < 0.75 else ['list', ft], pid]
+            elif r.random() < 0.25:
+                ft = ['list', ft]
+            target = spread[fids.index(tid) % len(spread)] if forced and r.random() < 0.7 else r.choice(all_dcs)
+            target['fields'].insert(0, {'name': self.t('f'), 'type': ft})
         # nested classes with their OWN Meta, different from the root's, in settings that change
         # which names the generated code mentions (unknown-key action)
         for t in self.types:
@@ -345,7 +404,8 @@ class Gen:
                              for t in self.types if t['kind'] == 'dataclass' for f in t['fields'])
         if r.random() < (0.6 if has_ca_default else 0.12):
             meta['skip_defaults_if'] = r.choice([['isnone'], ['falsy'], ['eqc', '1.5']])
-        spec = {'engine': self.engine, 'mixin': r.random() < 0.3, 'types': self.types, 'root': root['id'], 'meta': meta}
+        spec = {'engine': self.engine, 'mixin': r.random() < 0.3, 'types': self.types, 'root': root['id'], 'meta': meta,
+                'patterns': self.patterns}
         spec['ops'] = self.ops(spec)
         return spec
 
@@ -364,8 +424,21 @@ class Gen:
                 return r.choice([0.5, 2.25])
             return r.choice([True, False])
         k = t[0]
+        if k == 'pat':
+            import datetime as _dt
+
+            def fmt(inner):
+                if inner[0] == 'list':
+                    return [fmt(inner[1]) for _ in range(r.choice([1, 2]))]
+                base = self.tspec(spec, inner[1])['base']
+                iso = r.choice(self.LEAF_VALUES[base])
+                obj = {'date': _dt.date, 'time': _dt.time, 'datetime': _dt.datetime}[base].fromisoformat(iso)
+                return obj.strftime(spec['patterns'][t[2]])
+            return fmt(t[1])
         if k == 'ref':
             ts = self.tspec(spec, t[1])
+            if ts['kind'] == 'leaf':
+                return r.choice(self.LEAF_VALUES[ts['base']])
             if ts['kind'] == 'enum':
                 return r.choice(ts['members'])[1]
             if ts['kind'] == 'namedtuple':
@@ -516,7 +589,10 @@ V1_DUNDER = ['TRUTHY', 'pre_from_dict__']          # `__<field>` meets a closure
 TYPE_NAMES = ['int', 'str', 'list', 'dict', 'type', 'id', 'len', 'float', 'bool', 'object', 'o', 'cls', 'fields',
               'field', 'MISSING', 'tp', 'ParseError', 'Enum', 'Decimal', 'datetime', 'as_int', 'config', 'Item',
               'Color', 'tp_fields', 'v1', 'e', 'result', 'Exception', 'hooks', 'T', 'LOG', 'dataclass_wizard']
-HOSTILE = ["a'b", 'a"b', 'a\\b', 'a{b}', 'a\nb', 'ünï', "'", '"', '\\', '{', '}', '{0}', '%s', 'a\tb', ' ',
+HOSTILE_SYNTAX = ['#', 'k  # x', '  # ', 'a # b', '"' * 3, "'''x", 'f"', 'f"{x}"', "rb'", ';', 'a;b', ':', 'a: b', 'x\\',
+                  'lambda', 'lambda: 0', 'import os', 'a\tb\t', '\x0cx', 'def f():', 'y' * 200, 'a = 1  # c', '\\\n',
+                  'if x:', '@d', '->', '*args', '**kw', ')', '(', ']', ',', ' leading', 'trailing ', '0', '-1', 'None', 'True']
+HOSTILE = HOSTILE_SYNTAX + ["a'b", 'a"b', 'a\\b', 'a{b}', 'a\nb', 'ünï', "'", '"', '\\', '{', '}', '{0}', '%s', 'a\tb', ' ',
            'a b', "it's \"q\"", '\\n', '$x', 'ключ', '日本', '\U0001f600', 'a\x7fb',
            'a\r\nb', '[0]', '#', "'''", '"""', '{o}', '{cls}', "\\'", '\\"', 'a\\', "');import os;('", 'o', 'cls',
            'field', '__tag__x', 'a%(b)s', '\\x41', '\\N{BULLET}', '\x01', 'x' * 70, '{{', '}}', "a''b", '`', 'é']
@@ -575,7 +651,7 @@ def derived_renaming(r, spec, R):
     return R
 
 
-def make_renaming(r, spec, flavor):
+def make_renaming(r, spec, flavor, pair=None):
     """token -> new text.  Field names injective within each class, key strings globally injective."""
     R = {}
     eng = spec['engine']
@@ -633,13 +709,23 @@ def make_renaming(r, spec, flavor):
                         R[f['name']] = c
         derived_renaming(r, spec, R)
     if flavor == 'types_same' and len(type_tokens) >= 2:
-        # prefer two types of the same kind (two nested dataclasses, two enums)
-        by_kind = {}
+        # two distinct types of one kind (for leaf subclasses: of one base) get ONE name; prefer pairs
+        # that stay OUTSIDE the open F9 region (same-named types in different classes / fields)
+        groups = {}
         for t in spec['types']:
             if t['id'] != spec['root']:
-                by_kind.setdefault(t['kind'], []).append(t['name'])
-        groups = [g for g in by_kind.values() if len(g) >= 2]
-        a, b = r.sample(r.choice(groups), 2) if groups and r.random() < 0.8 else r.sample(type_tokens, 2)
+                groups.setdefault((t['kind'], t.get('base')), []).append(t['name'])
+        pairs = [(a, b) for g in groups.values() for a in g for b in g if a < b]
+        r.shuffle(pairs)
+        outside = [(a, b) for a, b in pairs if not f9_region(rename_tree(spec, {b: a}))]
+        if pair is not None:
+            a, b = pair
+        elif outside and r.random() < 0.85:
+            a, b = outside[0]
+        elif pairs and r.random() < 0.8:
+            a, b = pairs[0]
+        else:
+            a, b = r.sample(type_tokens, 2)
         R[b] = R.get(a, a)
     return R
 
@@ -671,6 +757,57 @@ def same_named_types(spec, same_kind=False):
         key = (t['name'], t['kind']) if same_kind else t['name']
         names.setdefault(key, []).append(t['id'])
     return {n: ids for n, ids in names.items() if len(ids) > 1}
+
+
+def type_refs(t):
+    """spec ids referenced by a type expression"""
+    out = []
+    if isinstance(t, list):
+        if t[0] == 'ref':
+            out.append(t[1])
+        else:
+            for x in t[1:]:
+                out.extend(type_refs(x))
+    return out
+
+
+def f9_region(spec):
+    """the open F9 region, as narrow as the defect: where the unchanged library keys something by
+    __name__ within ONE name space:
+      (a) v1: two distinct DATACLASSES of the model with one __name__ (the load function's name is
+          global to the model's batch);
+      (b) v1: two distinct NamedTuples (or two TypedDicts) with one __name__ among the fields of ONE
+          dataclass (helper name `_load_<class>_<kind>_<name>`);
+      (c) v1: two distinct enums / leaf subclasses with one __name__ inside ONE field (type local
+          `<Name>_<field index>`);
+      (d) any engine, auto_assign_tags: two dataclasses with one __name__ in ONE Union (tag = __name__).
+    Same-named types in DIFFERENT classes / fields are outside (they work on the unchanged tree)."""
+    by_id = {t['id']: t for t in spec['types']}
+    v1 = spec['engine'] == 'v1'
+    dcs = [t for t in spec['types'] if t['kind'] == 'dataclass']
+    if v1 and len({t['name'] for t in dcs}) < len(dcs):
+        return True
+    for t in dcs:
+        per_class = {}
+        for f in t['fields']:
+            ids = list(dict.fromkeys(type_refs(f.get('type'))))
+            per_field = {}
+            for i in ids:
+                k = by_id[i]['kind']
+                if k in ('namedtuple', 'typeddict'):
+                    per_class.setdefault((k, by_id[i]['name']), set()).add(i)
+                if k in ('enum', 'leaf'):
+                    per_field.setdefault(by_id[i]['name'], set()).add(i)
+            if v1 and any(len(v) > 1 for v in per_field.values()):
+                return True
+            tt = f.get('type')
+            if spec['meta'].get('auto_tags') and isinstance(tt, list) and tt[0] == 'union':
+                names = [by_id[i]['name'] for i in type_refs(tt) if by_id[i]['kind'] == 'dataclass']
+                if len(set(names)) < len(names):
+                    return True
+        if v1 and any(len(v) > 1 for v in per_class.values()):
+            return True
+    return False
 
 
 def env_unsafe_alias(spec):
@@ -908,7 +1045,7 @@ def p1_failures(res):
 def classify(ctx, spec, res, what):
     """region of a failing case -> finding id or None"""
     eng = spec['engine']
-    if same_named_types(spec, same_kind=True) and (eng == 'v1' or spec['meta'].get('auto_tags')):
+    if f9_region(spec):
         return 'F9-same-name-types'
     if eng == 'env' and env_reserved_fields(spec):
         return 'C15a-env-field-shadows-generator-name'
@@ -1038,11 +1175,23 @@ def gen_cases(ctx):
         eng = ['v0', 'v1', 'v0', 'v1', 'env'][i % 5]
         spec = gen_env_model(r) if eng == 'env' else Gen(r, eng).model()
         flavors = (['fields', 'strings', 'derived'] if eng == 'env'
-                   else ['derived', r.choice(['types', 'types', 'types_same', 'all']),
+                   else ['derived', r.choice(['types', 'types_same', 'types_same', 'all']),
                          r.choice(['strings', 'strings', 'all']), r.choice(['fields', 'all'])])
         r.shuffle(flavors)
         rens = []
         for fl in flavors:
+            R = make_renaming(r, spec, fl)
+            if R:
+                rens.append((fl, R))
+        cases.append((spec, rens))
+    # focused models: two distinct types of ONE kind (NamedTuple, TypedDict, enum, leaf subclass of one
+    # base - patterned with one pattern object or not), used in different classes / fields, then given ONE name
+    for i in range(10 if ctx.tier == 'quick' else 60):
+        g = Gen(r, 'v1' if i % 5 else 'v0')
+        g.focus = ['leaf', 'namedtuple', 'typeddict', 'leaf', 'enum'][i % 5]
+        spec = g.model()
+        rens = [('types_same', make_renaming(r, spec, 'types_same', pair=g.focus_pair))]
+        for fl in ('derived', r.choice(['strings', 'all'])):
             R = make_renaming(r, spec, fl)
             if R:
                 rens.append((fl, R))
